@@ -129,8 +129,12 @@ func Drive(env DriveEnv, m *Monitor, tier string, seed int64, replay string) int
 					sigCounts[s] += n
 				}
 			} else {
-				// a borrowed workload (C15): its counters show what was exercised
+				// a borrowed workload (C15): its counters show what was exercised under the detector
 				evals += rep.Evaluations
+				nontrivial += rep.Nontrivial
+				if len(samples) < 8 && len(rep.Samples) > 0 {
+					samples = append(samples, map[string]any{"workload": r.Batch.Name, "sample": rep.Samples[0]})
+				}
 			}
 			for k, v := range rep.Counters {
 				if own {
